@@ -13,9 +13,9 @@ from harness.framework import Suite
 
 PID = "C20"
 TRANSLATE = True
-TRANSLATE_ALGO = ["AlgoTraverse", "AlgoTravFront", "AlgoRaster", "AlgoImgIo"]   # harness/algo_specs/18_raster.py: image_stack.py::_tp3f, ToImageStack._get_samplers / _get_scene (+ leave) / transform
+TRANSLATE_ALGO = ["AlgoTraverse", "AlgoTravFront", "AlgoRaster", "AlgoImgIo"]   # harness/algo_specs/18_raster.py: image_stack.py::_tp3f, ToImageStack._get_samplers / _get_scene (+ leave) / transform; 18b_imgio.py: images/io.py::save_tiff, TiffImageStack / NDArrayImageStack.__init__, __getitem__, get_full
 DRIVER_FILES = ["SwcVerif/Model/AlgoRunRaster.lean", "SwcVerif/Model/PyRaster.lean", "SwcVerif/Model/AlgoRunImgIo.lean", "SwcVerif/Model/PyImgIo.lean"]
-LEAN_MODS = ["SwcVerif.Props.C20", "SwcVerif.Props.C20Gen"]
+LEAN_MODS = ["SwcVerif.Props.C20", "SwcVerif.Props.C20Gen", "SwcVerif.Props.C20Io"]
 THEOREMS = [
     "C20.consts_pinned", "C20.save_puts_z_first", "C20.axes_roundtrip", "C20.axes_roundtrip_3d", "C20.unknown_axis", "C20.rescale_table",
     "C20.uint_float_uint", "C20.float_uint_float", "C20.grid_covers", "C20.bbox_contains", "C20.swept_ends",
@@ -25,6 +25,14 @@ THEOREMS = [
     "RefineRaster.edgeSolid_model", "RefineRaster.transform_refines",
     "C20.generated_slices", "C20.generated_bbox_contains", "C20.generated_bbox_integral", "C20.generated_edge_rule", "C20.sceneRose_length",
     "C20.generated_scene_every_tree", "C20.generated_transform_every_tree",
+    # the generated images/io.py logic (Gen/AlgoImgIo.lean, harness/algo_specs/18b_imgio.py) equals closed-form models for every input
+    # (Refine/ImgIo.lean); the property's statements for the code as translated (Props/C20Io.lean)
+    "RefineImgIo.ndarray_init_eq", "RefineImgIo.save_tiff_eq", "RefineImgIo.tiff_init_eq", "RefineImgIo.ndarray_getitem_eq",
+    "RefineImgIo.ndarray_get_full_eq",
+    "C20.generated_save_layout", "C20.generated_save_layout_3d", "C20.generated_save_rejects", "C20.generated_load_layout",
+    "C20.generated_load_layout_3d", "C20.generated_load_reset_axes", "C20.generated_load_general", "C20.generated_load_any_order",
+    "C20.generated_axes_roundtrip", "C20.generated_axes_roundtrip_3d", "C20.generated_roundtrip_values", "C20.generated_getitem",
+    "C20.generated_roundtrip_getitem", "C20.generated_save_factor", "C20.generated_load_factor", "C20.generated_uint_float_uint",
 ]
 TRUSTED = ["hand-written models Model/Images.lean of the axis bookkeeping (index tuples), the rescaling decisions and the voxel grid; AXES_ORDER, UINT_MAX and "
            "the 'ZXYC' axes string are regenerated from images/io.py on every run (Gen/Consts.lean)"]
